@@ -537,7 +537,10 @@ fn merge_json(a: &mut Agg, v: &Value) {
         *a.per_cfg.entry(k).or_insert(0) += n.as_u64().unwrap_or(0);
     }
     for s in v["samples"].as_array().cloned().unwrap_or_default() {
-        if a.samples.len() < 6 {
+        if s.get("nondeterministic").is_some() {
+            // determinism-guard mismatches are always kept, in front
+            a.samples.insert(0, s);
+        } else if a.samples.len() < 6 {
             a.samples.push(s);
         }
     }
@@ -923,9 +926,9 @@ fn main() {
     for (k, n) in &agg.counters {
         report.count(k, *n);
     }
-    for s in agg.samples.iter().take(4) {
+    for s in agg.samples.iter().take(6) {
         let s = s.clone();
-        report.sample(4, move || s);
+        report.sample(6, move || s);
     }
     for (key, f) in &agg.found {
         report.violation(Violation {
